@@ -2064,49 +2064,11 @@ int cmpfunc(const void *a, const void *b )
 
 void SVD(matrix* m, matrix *U, matrix *S, matrix *VT)
 {
-  size_t i;
-  matrix *w1;
-  matrix *w2;
-  matrix *m_t;
-  matrix *v;
-  dvector *eval1;
-  dvector *eval2;
-  NewMatrix(&w1, m->row, m->row); // A A^T
-  NewMatrix(&w2, m->col, m->col); // A^T A
-  NewMatrix(&m_t, m->col, m->row);
-
-  MatrixTranspose(m, m_t);
-
-  MatrixDotProduct(m, m_t, w1);
-  MatrixDotProduct(m_t, m, w2);
-
-  initDVector(&eval1);
-  initDVector(&eval2);
-
-  initMatrix(&v);
-  EVectEval(w1, eval1, v);
-  EVectEval(w2, eval2, U);
-
-  ResizeMatrix(VT, v->col, v->row);
-  MatrixTranspose(v, VT);
-  ResizeMatrix(S, m->row, m->col);
-
-  /*NewMatrix(&to_sort, (*S)->row, 2);*/
-
-  for(i = 0; i < S->col; i++){
-    if(FLOAT_EQ(eval1->data[i], 0.f, 1e-6) || eval1->data[i] < 0)
-      S->data[i][i] = 0.f;
-    else{
-      S->data[i][i] = sqrt(eval1->data[i]);
-    }
-  }
-
-  DelMatrix(&v);
-  DelMatrix(&m_t);
-  DelDVector(&eval1);
-  DelDVector(&eval2);
-  DelMatrix(&w2);
-  DelMatrix(&w1);
+  /* The eigenvectors of A^T A and of A A^T were taken from two independent decompositions
+   * (unpaired in order and sign, not orthogonal for repeated values, and swapped between U and VT),
+   * so U*S*VT reproduced the input only for symmetric positive semi-definite matrices.
+   * The factors come from the LAPACK based decomposition. */
+  SVDlapack(m, U, S, VT);
 }
 
 /* DGESDD prototype */
